@@ -33,10 +33,17 @@ m = {
         {"name": "vx", "path": "/verif/vx", "serves_properties": sorted(k for k in REG if not k.startswith("_")),
          "kind_free_text": "contract-based deductive verification: real functions extracted from /repo by syn spans on every run, "
                            "sidecar requires/ensures/invariants spliced in, discharged by Verus 0.2026.09.13 (Z3)"},
+        {"name": "kx", "path": "/verif/vx/kx.py", "serves_properties": ["C05", "C14"],
+         "kind_free_text": "Kani 0.68 / CBMC on items extracted into a scratch crate: loop-free harnesses over full symbolic domains (complete, not bounded)"},
+        {"name": "replay", "path": "/verif/replay", "serves_properties": sorted(k for k in REG if not k.startswith("_")),
+         "kind_free_text": "BOUNDED enumerators over the real crate (path dependency on /repo), some over real bash processes: cross-checks of assumed dependency contracts and "
+                           "stand-ins for what no contract reaches; labelled bounded in the evidence, never counted as discharged; a failing input is a violation with that input as replay"},
+        {"name": "e2e", "path": "/verif/vx/e2e.py", "serves_properties": ["C05", "C14", "C15"],
+         "kind_free_text": "BOUNDED end-to-end runs of the real scrut binary (built from the working tree) on generated documents: the accounting in src/bin/commands/test.rs"},
     ],
     "checks": checks,
     "not_applicable": NOT_APPLICABLE,
-    "notes": "exit 2 = INCONCLUSIVE (lost anchor, unsupported construct, resource limit): never an alarm. See DESIGN.md.",
+    "notes": "exit 2 = INCONCLUSIVE (lost anchor, unsupported construct, resource limit): never an alarm. Known findings and fixed defects: /verif/known_findings.json (15 open findings, each printed as a KNOWN-FINDING line by its check; 32 fix: commits in /repo). See DESIGN.md, in particular the closing paragraph of §6 on what a PASS decides.",
 }
 json.dump(m, open(os.path.join(os.path.dirname(os.path.abspath(__file__)), "MANIFEST.json"), "w"), indent=1)
 print("MANIFEST.json written:", len(checks), "checks,", len(NOT_APPLICABLE), "not applicable")
